@@ -4,6 +4,8 @@ import json, os, sys
 ROOT = os.path.dirname(os.path.dirname(os.path.abspath(__file__)))
 sys.path.insert(0, ROOT)
 from contracts import registry as reg
+from vx import axcheck as _ax
+from vx import cases as _cs
 
 props = [json.loads(l)['id'] for l in open(os.path.join(ROOT, 'properties.jsonl'))]
 checks = []
@@ -17,9 +19,10 @@ for pid in props:
         'thorough_cmd': './check %s --tier thorough' % pid,
         'evidence_file': '/verif/evidence/%s.json' % pid,
         'replay_cmd_template': './check %s --replay {path}' % pid,
-        'engine': 'vx+verus' + ('+kani' if pid in getattr(reg, 'EXTRA_ENGINES', {}) else ''),
+        'engine': 'vx+verus' + ('+kani' if pid == 'C19' else '') + ('+axcheck' if pid in _ax.AXIOMS else '') + ('+bounded' if pid in _cs.CASES else ''),
         'level_claimed': {'category': 'proof', 'text': meta['text'], 'design_ref': meta.get('design_ref', 'DESIGN.md §5 ' + pid)},
-        'level_note': meta['note'],
+        'level_note': meta['note'] + (' A bounded stand-in (enumerated inputs through the real binary, labelled bounded in the evidence, not counted in '
+                                      'obligations/discharged) covers the parts of the property whose code is outside the verifier\'s reach.' if pid in _cs.CASES else ''),
         'technique': meta.get('technique', 'contract-based deductive verification (Verus) of functions re-extracted from /repo on every run'),
     })
 man = {
@@ -35,8 +38,12 @@ man = {
     'engines': [
         {'name': 'vx+verus', 'path': '/verif/vx', 'serves_properties': sorted(reg.PROPERTY_UNITS),
          'kind_free_text': 'mechanical extractor/annotator (vx) + Verus 0.2026.09.13 (Z3): contracts, loop invariants, lemmas; obligations named and counted from the AIR log'},
-        {'name': 'kani', 'path': '/verif/kani', 'serves_properties': sorted(getattr(reg, 'EXTRA_ENGINES', {})),
+        {'name': 'kani', 'path': '/verif/vx/kani_engine.py', 'serves_properties': ['C19'],
          'kind_free_text': 'Kani 0.68 / CBMC 6.11 loop-free full-domain harnesses on extracted integer kernels'},
+        {'name': 'axcheck', 'path': '/verif/vx/axcheck.py', 'serves_properties': sorted(_ax.AXIOMS),
+         'kind_free_text': 'bounded validation of the regex assumptions of the contracts against the real regex crate and the pattern literals in the current source (bounded, not proof)'},
+        {'name': 'bounded', 'path': '/verif/vx/bounded.py', 'serves_properties': sorted(_cs.CASES),
+         'kind_free_text': 'bounded stand-in: enumerated inputs per property through the real binary / hook harness against the result the property statement prescribes (bounded, not proof)'},
     ],
     'checks': checks,
     'not_applicable': [{'property_id': p, 'reason': r} for p, r in sorted(reg.NOT_APPLICABLE.items()) if p not in reg.PROPERTY_UNITS],
